@@ -74,7 +74,40 @@ def make_handler(log, name, beh):
     return h
 
 
+def build_tree(node, log, first):
+    """node = (letter, [(flavour, behaviour)...], [child nodes]); sub-applications are added before (first) or
+    after the node's own contexts."""
+    letter, ctxs, children = node
+    app = web.Application()
+
+    def add_children():
+        for ch in children:
+            app.add_subapp("/" + ch[0].lower(), build_tree(ch, log, first))
+
+    if first:
+        add_children()
+    for k, (fl, beh) in enumerate(ctxs):
+        app.cleanup_ctx.append(make_ctx(log, f"{letter}{k}", fl, beh))
+    if not first:
+        add_children()
+    return app
+
+
+def tree_names(node):
+    letter, ctxs, children = node
+    out = [f"{letter}{k}" for k in range(len(ctxs))]
+    for ch in children:
+        out += tree_names(ch)
+    return out
+
+
 def build_app(cfg, log):
+    if cfg.get("tree") is not None:
+        app = build_tree(cfg["tree"], log, cfg["sub_first"])
+        for sig in ("on_startup", "on_shutdown", "on_cleanup"):
+            if cfg[sig] is not None:
+                getattr(app, sig).append(make_handler(log, sig, cfg[sig]))
+        return app
     app = web.Application()
     sub = None
     if cfg["sub"] is not None:
@@ -140,20 +173,23 @@ def run_ctx_case(cfg):
 def judge_ctx(cfg, log):
     """Event-log model: exit exactly once iff entered; per application reverse order."""
     out = []
-    names = [f"P{k}" for k in range(len(cfg["ctxs"]))] + [f"S{k}" for k in range(len(cfg["sub"] or ()))]
+    if cfg.get("tree") is not None:
+        names = tree_names(cfg["tree"])
+    else:
+        names = [f"P{k}" for k in range(len(cfg["ctxs"]))] + [f"S{k}" for k in range(len(cfg["sub"] or ()))]
     entered = [n for (e, *r) in log if e == "entered" for n in r]
     exits = [n for (e, *r) in log if e == "exit" for n in r]
     ep = cfg["entry"]
     for n in names:
         k = exits.count(n)
         if n in entered and k == 0:
-            out.append((f"C20:ctx:cleanup-missing:{ep}:{'sub' if n[0] == 'S' else 'app'}",
+            out.append((f"C20:ctx:cleanup-missing:{ep}:{'app' if n[0] == 'P' else 'sub' if n[0] in 'ST' else 'nested-sub'}",
                         f"context {n} entered but its cleanup code never ran; log {log}"))
         elif n in entered and k > 1:
             out.append((f"C20:ctx:cleanup-twice:{ep}", f"context {n} exited {k} times; log {log}"))
         elif n not in entered and k:
             out.append((f"C20:ctx:cleanup-without-startup:{ep}", f"context {n} never finished entering but its exit ran; log {log}"))
-    for prefix in ("P", "S"):
+    for prefix in sorted({n[0] for n in names}):
         ent = [n for n in entered if n[0] == prefix]
         ex = [n for n in exits if n[0] == prefix]
         seen = []
@@ -191,6 +227,32 @@ def ctx_configs(quick):
                         for su, sc in ((None, None), ("raise", None), (None, "raise")):
                             yield {"entry": entry, "ctxs": list(ctxs), "sub": list(sub), "sub_first": sub_first,
                                    "on_startup": su, "on_shutdown": None, "on_cleanup": sc}
+
+
+def tree_configs(quick):
+    """Sub-applications nested two and three levels deep, and a nested one beside a flat sibling."""
+    BEH = ("ok", "fail_setup", "fail_teardown")
+
+    def shapes(b):
+        g = lambda i: [("gen", b[i])]
+        yield ("P", g(0), [("S", g(1), [("G", g(2), [])])]), 3
+        yield ("P", g(0), [("S", g(1), [("G", g(2), [])]), ("T", g(3), [])]), 4
+        yield ("P", g(0), [("S", g(1), [("G", g(2), [("H", g(3), [])])])]), 4
+        yield ("P", g(0), [("S", [], [("G", g(2), [])]), ("T", g(3), [])]), 4
+    for entry in ("runner", "run_app"):
+        for b in itertools.product(BEH, repeat=4):
+            seen = set()
+            for tree, used in shapes(b):
+                key = (repr(tree))
+                if key in seen:
+                    continue
+                seen.add(key)
+                if used == 3 and b[3] != "ok":
+                    continue
+                for sub_first in (False, True):
+                    for su, sc in ((None, None), ("raise", None)) + (((None, "raise"),) if not quick else ()):
+                        yield {"entry": entry, "tree": tree, "ctxs": [], "sub": None, "sub_first": sub_first,
+                               "on_startup": su, "on_shutdown": None, "on_cleanup": sc}
 
 
 def _job_ctx(cfgs):
@@ -506,7 +568,7 @@ def run(ctx):
         "reverse order is judged per application (parent's and sub-application's contexts separately)",
         f"shutdown_timeout={TIMEOUT}; 'at once' = within 4 loop passes; grace of 1 s of virtual time on the 2x-timeout bound (timeouts are ceiled)",
     ]
-    cfgs = list(ctx_configs(ctx.quick))
+    cfgs = list(ctx_configs(ctx.quick)) + list(tree_configs(ctx.quick))
     jobs = [("ctx", cfgs[i:i + 60]) for i in range(0, len(cfgs), 60)]
     bound = 2 if ctx.quick else 3
     jobs += [("shutdown", c, bound) for c in shut_cases(ctx.quick)]
